@@ -35,6 +35,7 @@ func (b *VerifBench) VerifSetProjectors(ch, nbases int) error {
 type VerifRPC struct {
 	SC   *SourceControl
 	stop chan struct{}
+	ts   *TriangleSource
 }
 
 // VerifNewRPC builds the stand-in. Client updates go to the package's clientMessageChan, which the bench drains.
@@ -51,12 +52,15 @@ func VerifNewRPC(b *VerifBench) *VerifRPC {
 	sc.isSourceActive = true
 	sc.status.Running = true
 	sc.status.ChanGroups = make([]GroupIndex, 0)
-	r := &VerifRPC{SC: sc, stop: make(chan struct{})}
+	// The RPC layer asks the source whether it is running: mark it Active the way Start does.
+	b.TS.RunDoneActivate()
+	r := &VerifRPC{SC: sc, stop: make(chan struct{}), ts: b.TS}
 	go func() {
 		for {
 			select {
 			case f := <-sc.queuedRequests:
 				f()
+			case <-sc.heartbeats:
 			case <-r.stop:
 				return
 			}
@@ -65,8 +69,11 @@ func VerifNewRPC(b *VerifBench) *VerifRPC {
 	return r
 }
 
-// Close stops the stand-in loop.
-func (r *VerifRPC) Close() { close(r.stop) }
+// Close stops the stand-in loop and marks the source Inactive again.
+func (r *VerifRPC) Close() {
+	close(r.stop)
+	r.ts.RunDoneDeactivate()
+}
 
 // SetMapPixels loads a pixel map with n entries into the map server (n < 0: no map).
 func (r *VerifRPC) SetMapPixels(n int) {
